@@ -627,13 +627,15 @@ theorem pinv_updateToken {a : AuthSt} (h : PInv a) (i : Nat) (id : Int) (name de
   · exact h
   · split
     · exact h
-    · cases hg : a.tokens.get? id with
-      | none => exact h
-      | some e =>
-        simp only
-        by_cases hrej : (changed.contains "name" && nameTaken a.byName name id) = true
-        · rw [if_pos hrej]; exact h
-        · rw [if_neg hrej]; exact pinv_tokens_ins h id _ _ _
+    · split
+      · exact h
+      · cases hg : a.tokens.get? id with
+        | none => exact h
+        | some e =>
+          simp only
+          by_cases hrej : (changed.contains "name" && nameTaken a.byName name id) = true
+          · rw [if_pos hrej]; exact h
+          · rw [if_neg hrej]; exact pinv_tokens_ins h id _ _ _
 
 theorem pinv_revokeToken {a : AuthSt} (h : PInv a) (i : Nat) (id : Int) :
     PInv (applyRevokeToken a i id).1 := by
